@@ -311,11 +311,27 @@ ADDENDA7 = {
     'C20': '-DNDEBUG configuration.',
 }
 
+ADDENDA8 = {
+    'C01': 'R01.14 parse(argc, argv) passes no element of argv over (no way from the head of a token-building loop back to it without an append).',
+    'C02': 'R02.5 typed access extracts into the requested type; R02.9 options are offered a token before toggles; R12.10 re-evaluated (type-level witnesses).',
+    'C03': 'R11.7 (one integral type for a toggle default) re-evaluated as R03.7.',
+    'C08': 'R08.5 raise() forwards its whole argument pack; unresolved calls whose every candidate is [[noreturn]] end their block.',
+    'C09': 'R09.8 the thread-safe sinks receive the record with its length (string, view, or pointer + count).',
+    'C12': 'R12.10 string-accepting entry points decided by type-level witnesses (witness/tl_C12.cpp); R12.15 accessors not noexcept; R12.16 (= R01.14).',
+    'C13': 'A letter set kept in a structure other than std::set is answered as analysis-broken (limit, DESIGN section 13).',
+    'C14': 'R14.6 state of a group written on the parse path is reset for every element of parser::groups_.',
+    'C16': 'R16.7 a std fold on the hashing path starts from a std::size_t (fixtures folds_narrow / folds_wide).',
+    'C17': 'R17.4 knows the three-iterator std::equal idiom and demands the length guard in front of it.',
+    'C18': 'R18.2 every make_quaint overload creates what it owns (no adopting overload).',
+    'C20': 'R20.1 no std::forward of a by-value member in a re-callable member function.',
+}
+
 TECH = {
     "C02": "verbatim value-flow (carrier) analysis + must-facts on the value/next-token selection + token-syntax language inclusion (regex-literal automata, or finite-domain abstract interpretation of a hand-written character check)",
     "C04": "context-sensitive must-facts dataflow over the call graph below parse() + truth-table entailment of guard preconditions + call-graph effect rules (regex subjects, recursion, catch-handler outcomes) + finite-domain abstract interpretation of the token syntax check",
     "C08": "taint-style subject analysis of searches + regex-literal language equality + must-facts on the arity guards + abstract interpretation of the text-assembling loop over symbolic positions",
     "C09": "lock-scope must-dataflow over the CFG + storage/linkage rules for the mutex + acquire-loop typestate check for hand-written lockables + who-may-touch call-graph rule",
+    "C12": "iteration-path enumeration of the token loop under must-facts + carrier analysis + index-normalisation facts + type-level witnesses (detection idiom over the parse overload set) + CFG must-pass rule on the argv loops",
     "C20": "type-level matrix (static_assert) + role-based structural rules on the adaptor patterns (roles derived from constructors) + storage scan + shared iterator-bound rule",
 }
 
@@ -334,6 +350,8 @@ def main():
     for k, v in ADDENDA6.items():
         CLAIMS[k]["text"] = CLAIMS[k]["text"].rstrip() + " " + v
     for k, v in ADDENDA7.items():
+        CLAIMS[k]["text"] = CLAIMS[k]["text"].rstrip() + " " + v
+    for k, v in ADDENDA8.items():
         CLAIMS[k]["text"] = CLAIMS[k]["text"].rstrip() + " " + v
     for k, v in TECH.items():
         CLAIMS[k]["technique"] = v
